@@ -245,7 +245,7 @@ fn main() {
     if let Some(w) = ctx.replay_witness() {
         ctx.finish_replay(explore::replay::<Sys>("C29", || Sys::new(vec![-5000, -1, 0, 1, 1000]), &w));
     }
-    let (depth, devs) = if thorough { (7, 3) } else { (5, 2) };
+    let (depth, devs) = if thorough { (10, 4) } else { (7, 3) };
     let t = ticks.clone();
     let mut res = explore::explore("C29", move || Sys::new(t.clone()), Bounds::new(depth, devs).wall_secs(if thorough { 1500 } else { 50 }));
     for mut v in Sys::new(ticks.clone()).init_vs {
